@@ -20,130 +20,500 @@ MANDATORY_MODULES = [
 
 
 # ---------------------------------------------------------------------------------------------------- wrapper inlining
-def absorb_private_helpers(modules, rounds=3):
-    """Resolve trivial wrappers before anything is analysed (Min et al.: treat a wrapper as what its body does).
+def _simple_arg(e):
+    """an argument expression that may be substituted for the parameter: a name, a constant, an attribute chain on a name"""
+    if isinstance(e, (ast.Name, ast.Constant)):
+        return True
+    return isinstance(e, ast.Attribute) and _simple_arg(e.value)
 
-    A method H is *absorbed* - every call of it is replaced by its body (locals renamed), preceded by the marker call
-    `__pwsa_inlined__('H')` (a call is a landing point for an asynchronous exception, so the marker keeps that effect), and the
-    definition is dropped - when nothing but inlining can be meant by a call of it:
-      * the name is private (one leading underscore, no dunder) and is defined exactly once in the whole package (no override, no
-        namesake), undecorated, with `self` as its only parameter;
-      * its body has no `return <value>`, no early `return`, no yield/await, no nested function or class, no `super()`;
-      * every mention of the name in the package is a call `self.H()` without arguments that forms a whole expression statement
-        (it is never used as a value - thread target, callback - and never looked up through a string), and not inside H itself.
-    The rules then judge what the program does, not in which method a statement happens to sit: extracting a statement into such
-    a helper, or merging two branches into one, changes no verdict unless the helper's body really differs.
-    Returns the list of absorbed names (reported in the evidence)."""
+
+def _first_evaluated_node(test):
+    t = test
+    while True:
+        if isinstance(t, ast.UnaryOp) and isinstance(t.op, ast.Not):
+            t = t.operand
+        elif isinstance(t, ast.BoolOp):
+            t = t.values[0]
+        elif isinstance(t, ast.Compare):
+            t = t.left
+        else:
+            return t
+
+
+def _tailify(stmts, var):
+    """rewrite `return E` statements that are in tail position (the last statement of the list, recursively through a trailing if / try / with) into
+    `var = E`; None if a return sits anywhere else"""
+    if not stmts:
+        return stmts
+    # a guard clause `if c: ...; return [E]` in front of the rest of the block is `if c: ...; return [E]` / `else: <rest>`
+    for i, st in enumerate(stmts[:-1]):
+        if isinstance(st, ast.If) and not st.orelse and st.body and isinstance(st.body[-1], ast.Return):
+            st.orelse = stmts[i + 1:]
+            stmts = stmts[:i + 1]
+            break
+    for st in stmts[:-1]:
+        if any(isinstance(x, ast.Return) for x in ast.walk(st)):
+            return None
+    last = stmts[-1]
+    if isinstance(last, ast.Return):
+        new = ast.Assign(targets=[ast.Name(id=var, ctx=ast.Store())], value=last.value if last.value is not None else ast.Constant(value=None))
+        ast.copy_location(new, last)
+        ast.fix_missing_locations(new)
+        return stmts[:-1] + [new]
+    if isinstance(last, ast.If):
+        a, b = _tailify(last.body, var), _tailify(last.orelse, var)
+        if a is None or b is None:
+            return None
+        last.body, last.orelse = a, b
+        return stmts
+    if isinstance(last, (ast.With,)):
+        a = _tailify(last.body, var)
+        if a is None:
+            return None
+        last.body = a
+        return stmts
+    if isinstance(last, ast.Try):
+        if last.finalbody and any(isinstance(x, ast.Return) for st in last.finalbody for x in ast.walk(st)):
+            return None
+        if last.orelse and any(isinstance(x, ast.Return) for st in last.body for x in ast.walk(st)):
+            return None
+        parts = [last.body, last.orelse] + [h.body for h in last.handlers]
+        outs = [_tailify(p0, var) for p0 in parts]
+        if any(o is None for o in outs):
+            return None
+        last.body, last.orelse = outs[0], outs[1]
+        for h, o in zip(last.handlers, outs[2:]):
+            h.body = o
+        return stmts
+    if any(isinstance(x, ast.Return) for x in ast.walk(last)):
+        return None
+    return stmts
+
+
+def _always_assigns(stmts, var):
+    """every way through the statement list (that does not raise) ends with an assignment to var made by _tailify"""
+    if not stmts:
+        return False
+    last = stmts[-1]
+    if isinstance(last, ast.Assign) and len(last.targets) == 1 and isinstance(last.targets[0], ast.Name) and last.targets[0].id == var:
+        return True
+    if isinstance(last, ast.Raise):
+        return True
+    if isinstance(last, ast.If):
+        return _always_assigns(last.body, var) and _always_assigns(last.orelse, var)
+    if isinstance(last, ast.With):
+        return _always_assigns(last.body, var)
+    if isinstance(last, ast.Try):
+        return _always_assigns(last.orelse if last.orelse else last.body, var) and all(_always_assigns(h.body, var) for h in last.handlers)
+    return False
+
+
+def scalarise_local_records(modules):
+    """A local bound once to `C()` - C a module-level @dataclass of the package whose fields all have literal defaults - that is only ever used through
+    its fields (`v.f` read, assigned, augmented; never passed on, returned, stored or compared as a whole) is analysed as one local per field:
+    `v = C()` becomes `v__f = <default>` for every field and `v.f` becomes `v__f`.  After the helpers that received the record have been inlined this
+    turns a little state object back into the plain locals the rules read.  Returns the number of scalarised locals."""
+    count = 0
+    for mod in modules.values():
+        records = {}
+        for c in mod.tree.body:
+            if isinstance(c, ast.ClassDef) and any((isinstance(d, ast.Name) and d.id == 'dataclass') or (isinstance(d, ast.Attribute) and d.attr == 'dataclass') or
+                                                   (isinstance(d, ast.Call) and 'dataclass' in dotted(d.func or '')) for d in c.decorator_list):
+                fields = {}
+                ok = True
+                for st in c.body:
+                    if isinstance(st, ast.Expr) and isinstance(st.value, ast.Constant):
+                        continue
+                    if isinstance(st, ast.AnnAssign) and isinstance(st.target, ast.Name) and isinstance(st.value, ast.Constant):
+                        fields[st.target.id] = st.value
+                    elif isinstance(st, ast.Assign) and len(st.targets) == 1 and isinstance(st.targets[0], ast.Name) and isinstance(st.value, ast.Constant):
+                        fields[st.targets[0].id] = st.value
+                    elif isinstance(st, ast.Pass):
+                        continue
+                    else:
+                        ok = False
+                if ok and fields:
+                    records[c.name] = fields
+        if not records:
+            continue
+        for fn in ast.walk(mod.tree):
+            if not isinstance(fn, (ast.FunctionDef, ast.AsyncFunctionDef)):
+                continue
+            parents = {}
+            for n in ast.walk(fn):
+                for ch in ast.iter_child_nodes(n):
+                    parents[ch] = n
+            for st in list(ast.walk(fn)):
+                if not (isinstance(st, ast.Assign) and len(st.targets) == 1 and isinstance(st.targets[0], ast.Name) and isinstance(st.value, ast.Call)
+                        and isinstance(st.value.func, ast.Name) and st.value.func.id in records and not st.value.args and not st.value.keywords):
+                    continue
+                v = st.targets[0].id
+                fields = records[st.value.func.id]
+                names = [n for n in ast.walk(fn) if isinstance(n, ast.Name) and n.id == v]
+                if sum(isinstance(n.ctx, ast.Store) for n in names) != 1:
+                    continue
+                if any(not (isinstance(parents.get(n), ast.Attribute) and parents[n].value is n and parents[n].attr in fields) for n in names if n is not st.targets[0]):
+                    continue
+                for n in names:
+                    if n is st.targets[0]:
+                        continue
+                    at = parents[n]
+                    ctx0 = at.ctx
+                    keep = {k: getattr(at, k) for k in ('lineno', 'col_offset', 'end_lineno', 'end_col_offset') if hasattr(at, k)}
+                    field = at.attr
+                    at.__class__ = ast.Name
+                    at.__dict__.clear()
+                    at.__dict__.update(dict(id=f'{v}__{field}', ctx=ctx0, **keep))
+                # the constructor call becomes the field initialisations
+                holder = parents.get(st)
+                for fld in ('body', 'orelse', 'finalbody'):
+                    lst = getattr(holder, fld, None)
+                    if isinstance(lst, list) and any(x is st for x in lst):
+                        i = [k for k, x in enumerate(lst) if x is st][0]
+                        new = []
+                        for k, (fname, dflt) in enumerate(fields.items()):
+                            a0 = ast.Assign(targets=[ast.Name(id=f'{v}__{fname}', ctx=ast.Store())], value=copy.deepcopy(dflt), type_comment=None)
+                            ast.copy_location(a0, st)
+                            ast.fix_missing_locations(a0)
+                            a0.lineno = st.lineno + k / 100000.0
+                            new.append(a0)
+                        lst[i:i + 1] = new
+                        break
+                count += 1
+    return count
+
+
+def propagate_inlined_temporaries(modules):
+    """A temporary created by the inliner (`<name>__<helper>`) that is assigned once, `t = E`, and read once, as the whole value of a later plain
+    assignment `x = t` in the same block with nothing but other such temporaries defined in between, is removed: `x = E` takes the place of the
+    definition.  Returns the number of removed temporaries."""
+    count = 0
+    for mod in modules.values():
+        for fn in ast.walk(mod.tree):
+            if not isinstance(fn, (ast.FunctionDef, ast.AsyncFunctionDef)):
+                continue
+            uses = {}
+            for n in ast.walk(fn):
+                if isinstance(n, ast.Name) and '__' in n.id and not n.id.startswith('__'):
+                    uses.setdefault(n.id, []).append(n)
+            for parent in ast.walk(fn):
+                for field in ('body', 'orelse', 'finalbody'):
+                    lst = getattr(parent, field, None)
+                    if not isinstance(lst, list):
+                        continue
+                    changed = True
+                    while changed:
+                        changed = False
+                        for i, st in enumerate(lst):
+                            if not (isinstance(st, ast.Assign) and len(st.targets) == 1 and isinstance(st.targets[0], ast.Name) and st.targets[0].id in uses):
+                                continue
+                            t = st.targets[0].id
+                            us = uses[t]
+                            if len(us) != 2 or sum(isinstance(u.ctx, ast.Store) for u in us) != 1:
+                                continue
+                            for j in range(i + 1, len(lst)):
+                                nx = lst[j]
+                                if isinstance(nx, ast.Assign) and len(nx.targets) == 1 and isinstance(nx.value, ast.Name) and nx.value.id == t:
+                                    nx.value = st.value
+                                    nx.lineno = st.lineno
+                                    if hasattr(st, 'orig_lineno'):
+                                        nx.orig_lineno = st.orig_lineno
+                                    # the receiving assignment moves to where the value was computed
+                                    lst.pop(j)
+                                    lst[i] = nx
+                                    del uses[t]
+                                    count += 1
+                                    changed = True
+                                    break
+                                if not (isinstance(nx, ast.Assign) and len(nx.targets) == 1 and isinstance(nx.targets[0], ast.Name) and nx.targets[0].id in uses):
+                                    break
+                            if changed:
+                                break
+    return count
+
+
+_VOCABULARY = None
+
+
+def _rule_vocabulary():
+    """private names the rules themselves mention as quoted identifiers: the anchors of the protocol (`_start`, `_run`, `_close`, `_cleanup`, ...).
+    They are never absorbed - only helpers the rules have never heard of are."""
+    global _VOCABULARY
+    if _VOCABULARY is None:
+        import glob
+        import re
+        names = set()
+        here = os.path.dirname(os.path.abspath(__file__))
+        for fpath in glob.glob(os.path.join(here, '**', '*.py'), recursive=True):
+            if os.path.basename(fpath) in ('variants.py', 'selftest.py'):
+                continue
+            with open(fpath, encoding='utf-8') as fh:
+                names |= set(re.findall(r"['\"](_[a-z][a-z0-9_]*)['\"]", fh.read()))
+        _VOCABULARY = names
+    return _VOCABULARY
+
+
+def absorb_private_helpers(modules, rounds=4):
+    """Resolve private helpers before anything is analysed (Min et al.: treat a wrapper as what its body does).
+
+    A helper H - a method called as `self.H(...)`, a static method, or a module-level function called as `H(...)` - is *absorbed*: every call of it
+    is replaced by its body (parameters bound or substituted, locals renamed, the value of its single trailing `return` handed to the call site),
+    preceded by the marker call `__pwsa_inlined__('H')` where entering the helper is a landing point of its own, and the definition is dropped -
+    when nothing but inlining can be meant by a call of it:
+      * the name is private (one leading underscore, no dunder), is defined exactly once in the whole package (no override, no namesake), undecorated
+        (or a plain @staticmethod), without *args / **kwargs;
+      * its body has at most one `return`, as its last statement; no yield / await, no nested function or class, no `super()`, no recursion;
+      * every mention of the name in the package is a call with plain positional / keyword arguments in one of the positions the inliner can rewrite:
+        a whole expression statement, the value of an assignment, the value of a `return` (possibly under `not`), or the first thing an `if` test
+        evaluates; the name is never used as a value (thread target, callback) and never looked up through a string.
+    The rules then judge what the program does, not in which function a statement happens to sit: extracting statements into such a helper, or merging
+    duplicated code of two branches into one, changes no verdict unless the helper's body really differs.  Returns the list of absorbed names."""
     absorbed = []
     for _ in range(rounds):
         defs = {}
         strings = set()
+        count = {}
         for mod in modules.values():
-            for c in ast.walk(mod.tree):
-                if isinstance(c, ast.ClassDef):
-                    for st in c.body:
-                        if isinstance(st, (ast.FunctionDef, ast.AsyncFunctionDef)):
-                            defs.setdefault(st.name, []).append((mod, c, st))
             for n in ast.walk(mod.tree):
                 if isinstance(n, ast.Constant) and isinstance(n.value, str):
                     strings.add(n.value)
                 if isinstance(n, (ast.FunctionDef, ast.AsyncFunctionDef)):
-                    defs.setdefault(n.name, [])
-        # functions defined outside classes with the same name disqualify too
-        plain = {}
-        for mod in modules.values():
-            for n in ast.walk(mod.tree):
-                if isinstance(n, (ast.FunctionDef, ast.AsyncFunctionDef)):
-                    plain[n.name] = plain.get(n.name, 0) + 1
+                    count[n.name] = count.get(n.name, 0) + 1
+            for st in mod.tree.body:
+                if isinstance(st, ast.FunctionDef):
+                    defs.setdefault(st.name, []).append((mod, None, st))
+                if isinstance(st, ast.ClassDef):
+                    for m in st.body:
+                        if isinstance(m, ast.FunctionDef):
+                            defs.setdefault(m.name, []).append((mod, st, m))
         cands = {}
+        vocabulary = _rule_vocabulary()
         for name, lst in defs.items():
-            if len(lst) != 1 or plain.get(name, 0) != 1 or not name.startswith('_') or name.startswith('__') or name in strings:
+            if len(lst) != 1 or count.get(name, 0) != 1 or not name.startswith('_') or name.startswith('__') or name in strings:
                 continue
+            if name in vocabulary:
+                continue        # a function the rules address by name (an anchor of the protocol) is analysed where it stands
             mod, c, f = lst[0]
             a = f.args
-            if f.decorator_list or isinstance(f, ast.AsyncFunctionDef) or [x.arg for x in a.args] != ['self'] or a.posonlyargs or a.kwonlyargs or a.vararg or a.kwarg:
+            static = False
+            if f.decorator_list:
+                if c is not None and len(f.decorator_list) == 1 and isinstance(f.decorator_list[0], ast.Name) and f.decorator_list[0].id == 'staticmethod':
+                    static = True
+                else:
+                    continue
+            if a.vararg or a.kwarg or a.posonlyargs:
                 continue
+            params = [x.arg for x in a.args]
+            if c is not None and not static:
+                if not params or params[0] != 'self':
+                    continue
+                params = params[1:]
+            defaults = dict(zip([x.arg for x in a.args][len(a.args) - len(a.defaults):], a.defaults))
+            defaults.update({x.arg: d for x, d in zip(a.kwonlyargs, a.kw_defaults) if d is not None})
+            params += [x.arg for x in a.kwonlyargs]
             body = [st for st in f.body if not (isinstance(st, ast.Expr) and isinstance(st.value, ast.Constant))]
-            if body and isinstance(body[-1], ast.Return) and body[-1].value is None:
+            ret = None
+            if body and isinstance(body[-1], ast.Return):
+                ret = body[-1].value
                 body = body[:-1]
-            if not body:
+            elif any(isinstance(x, ast.Return) for st in body for x in ast.walk(st)):
+                # returns in tail position of a trailing if / try / with: each becomes an assignment to a result variable
+                tb = _tailify(copy.deepcopy(body), f'result__{name}')
+                if tb is None:
+                    continue
+                body = ([] if _always_assigns(tb, f'result__{name}') else
+                        [ast.Assign(targets=[ast.Name(id=f'result__{name}', ctx=ast.Store())], value=ast.Constant(value=None))]) + tb
+                for st in body:
+                    ast.copy_location(st, f.body[0]) if not hasattr(st, 'lineno') else None
+                    ast.fix_missing_locations(st)
+                ret = ast.Name(id=f'result__{name}', ctx=ast.Load())
+                ast.copy_location(ret, f.body[-1])
+            if not body and ret is None:
                 continue
             bad = False
-            for st in body:
+            for st in body + ([ast.Expr(value=ret)] if ret is not None else []):
                 for n in ast.walk(st):
                     if isinstance(n, (ast.Return, ast.Yield, ast.YieldFrom, ast.Await, ast.FunctionDef, ast.AsyncFunctionDef, ast.ClassDef, ast.Lambda, ast.Global, ast.Nonlocal)):
                         bad = True
-                    if isinstance(n, ast.Name) and n.id == 'super':
+                    if isinstance(n, ast.Name) and n.id in ('super', name):
                         bad = True
                     if isinstance(n, ast.Attribute) and n.attr == name:
                         bad = True          # recursive
             if not bad:
-                cands[name] = (mod, c, f, body)
+                cands[name] = dict(mod=mod, cls=c, f=f, body=body, ret=ret, params=params, defaults=defaults, static=static)
         if not cands:
             break
-        # reference census
+        # reference census: every mention must be a call in a position the inliner can rewrite
         sites = {name: [] for name in cands}
         for mod in modules.values():
             parents = {}
             for n in ast.walk(mod.tree):
                 for ch in ast.iter_child_nodes(n):
                     parents[ch] = n
+
+            def enclosing_stmt(x):
+                while x in parents and not isinstance(x, ast.stmt):
+                    x = parents[x]
+                return x if isinstance(x, ast.stmt) else None
             for n in ast.walk(mod.tree):
-                if isinstance(n, ast.Attribute) and n.attr in cands:
-                    call = parents.get(n)
-                    stmt = parents.get(call)
-                    ok = isinstance(n.value, ast.Name) and n.value.id == 'self' and isinstance(call, ast.Call) and call.func is n and not call.args and not call.keywords \
-                        and isinstance(stmt, ast.Expr) and stmt.value is call
-                    if ok:
-                        holder = parents.get(stmt)
-                        sites[n.attr].append((holder, stmt))
-                    else:
-                        sites[n.attr] = None if sites[n.attr] is not None else None
-                        cands[n.attr] = None
-                if isinstance(n, ast.Name) and n.id in cands:
-                    cands[n.id] = None
+                ref = None
+                if isinstance(n, ast.Attribute) and n.attr in cands and cands[n.attr] is not None:
+                    ref = n.attr
+                    cd = cands[ref]
+                    recv_ok = cd['cls'] is not None and isinstance(n.value, ast.Name) and (n.value.id == 'self' or (cd['static'] and n.value.id == cd['cls'].name))
+                    if isinstance(n.ctx, ast.Store) or not recv_ok:
+                        cands[ref] = None
+                        continue
+                elif isinstance(n, ast.Name) and n.id in cands and cands[n.id] is not None:
+                    ref = n.id
+                    if cands[ref]['cls'] is not None or isinstance(n.ctx, ast.Store):
+                        cands[ref] = None
+                        continue
+                if ref is None:
+                    continue
+                cd = cands[ref]
+                if isinstance(parents.get(n), ast.FunctionDef) and parents.get(n) is cd['f']:
+                    continue
+                call = parents.get(n)
+                if not (isinstance(call, ast.Call) and call.func is n) or any(isinstance(x, ast.Starred) for x in call.args) or any(k.arg is None for k in call.keywords):
+                    cands[ref] = None
+                    continue
+                if len(call.args) > len(cd['params']) or any(k.arg not in cd['params'] for k in call.keywords):
+                    cands[ref] = None
+                    continue
+                bound = set(cd['params'][:len(call.args)]) | {k.arg for k in call.keywords}
+                if any(p0 not in bound and p0 not in cd['defaults'] for p0 in cd['params']):
+                    cands[ref] = None
+                    continue
+                stmt = enclosing_stmt(call)
+                holder = parents.get(stmt)
+                form = None
+                if isinstance(stmt, ast.Expr) and stmt.value is call:
+                    form = 'expr'
+                elif isinstance(stmt, ast.Assign) and stmt.value is call and cd['ret'] is not None:
+                    form = 'assign'
+                elif isinstance(stmt, ast.Return) and cd['ret'] is not None and (stmt.value is call or (
+                        isinstance(stmt.value, ast.UnaryOp) and isinstance(stmt.value.op, ast.Not) and stmt.value.operand is call)):
+                    form = 'return'
+                elif isinstance(stmt, ast.If) and cd['ret'] is not None and _first_evaluated_node(stmt.test) is call and not (
+                        isinstance(holder, ast.If) and holder.orelse and holder.orelse[0] is stmt and len(holder.orelse) == 1 and stmt.col_offset == holder.col_offset):
+                    form = 'if'
+                if form is None or holder is None or any(stmt in (parents.get(x),) for x in ()):
+                    cands[ref] = None
+                    continue
+                # not inside the helper itself, and not inside another candidate's definition that may be dropped in this round
+                sites[ref].append((holder, stmt, call, form))
         done_any = False
-        for name, cand in list(cands.items()):
-            if cand is None or not sites.get(name):
+        inlined_in = set()
+        for name, cd in list(cands.items()):
+            if cd is None or not sites.get(name):
                 continue
-            mod, c, f, body = cand
-            local_names = {x.id for st in body for x in ast.walk(st) if isinstance(x, ast.Name) and isinstance(x.ctx, (ast.Store, ast.Del))} | \
-                          {h.name for st in body for h in ast.walk(st) if isinstance(h, ast.ExceptHandler) and h.name}
-            for holder, stmt in sites[name]:
+            # a helper whose own body received inlined code in this round is left for the next round (its body changed under our feet)
+            if id(cd['f']) in inlined_in:
+                continue
+            body, ret, params, defaults = cd['body'], cd['ret'], cd['params'], cd['defaults']
+            stored = {x.id for st in body for x in ast.walk(st) if isinstance(x, ast.Name) and isinstance(x.ctx, (ast.Store, ast.Del))} | \
+                     {h.name for st in body for h in ast.walk(st) if isinstance(h, ast.ExceptHandler) and h.name}
+            ok_all = True
+            plans = []
+            for holder, stmt, call, form in sites[name]:
+                argmap = dict(zip(params, call.args))
+                argmap.update({k.arg: k.value for k in call.keywords})
+                for p0 in params:
+                    if p0 not in argmap:
+                        argmap[p0] = defaults[p0]
+                plans.append((holder, stmt, call, form, argmap))
+            for holder, stmt, call, form, argmap in plans:
+                subst = {p0: a0 for p0, a0 in argmap.items() if _simple_arg(a0) and p0 not in stored}
+                binds = [(p0, a0) for p0, a0 in argmap.items() if p0 not in subst]
+                rename = stored | {p0 for p0, _ in binds}
                 new = copy.deepcopy(body)
-                for st in new:
-                    for x in ast.walk(st):
-                        if isinstance(x, ast.Name) and x.id in local_names:
-                            x.id = f'{x.id}__{name}'
-                        if isinstance(x, ast.ExceptHandler) and x.name in local_names:
+                newret = copy.deepcopy(ret) if ret is not None else None
+
+                def rewrite(node):
+                    for x in list(ast.walk(node)):
+                        if isinstance(x, ast.ExceptHandler) and x.name in rename:
                             x.name = f'{x.name}__{name}'
-                # keep source order meaningful for rules that compare positions: the inlined statements get fractional line numbers between
-                # the call site and the next line (their real position is kept in orig_lineno for reports)
-                first = min((x.lineno for st in new for x in ast.walk(st) if hasattr(x, 'lineno')), default=stmt.lineno)
-                for st in new:
+                    class T(ast.NodeTransformer):
+                        def visit_Name(self, x):
+                            if x.id in subst and isinstance(x.ctx, ast.Load):
+                                return ast.copy_location(copy.deepcopy(subst[x.id]), x)
+                            if x.id in rename:
+                                x.id = f'{x.id}__{name}'
+                            return x
+                    return T().visit(node)
+                new = [rewrite(st) for st in new]
+                pre = [ast.Assign(targets=[ast.Name(id=f'{p0}__{name}', ctx=ast.Store())], value=copy.deepcopy(a0)) for p0, a0 in binds]
+                if newret is not None:
+                    newret = rewrite(ast.Expr(value=newret)).value
+                tail = []
+                if form == 'expr':
+                    if newret is not None and any(isinstance(x, ast.Call) for x in ast.walk(newret)):
+                        tail = [ast.Expr(value=newret)]
+                elif form == 'assign':
+                    tail = [ast.Assign(targets=stmt.targets, value=newret)]
+                elif form == 'return':
+                    v = newret if stmt.value is call else ast.UnaryOp(op=ast.Not(), operand=newret)
+                    tail = [ast.Return(value=v)]
+                elif form == 'if':
+                    tmp = f'ret__{name}'
+                    tail = [ast.Assign(targets=[ast.Name(id=tmp, ctx=ast.Store())], value=newret)]
+                seq = pre + new + tail
+                if not seq:
+                    seq = [ast.Pass()]
+                # fractional line numbers between the call site and the next line (real positions kept in orig_lineno for reports)
+                linenos = [x.lineno for st in seq for x in ast.walk(st) if hasattr(x, 'lineno')]
+                first = min(linenos, default=stmt.lineno)
+                span = max(linenos, default=first) - first + 2
+                k = 0
+                for st in seq:
+                    ast.fix_missing_locations(ast.copy_location(st, st) if hasattr(st, 'lineno') else ast.copy_location(st, stmt))
+                for st in seq:
                     for x in ast.walk(st):
                         if hasattr(x, 'lineno'):
-                            x.orig_lineno = getattr(x, 'orig_lineno', x.lineno)
-                            x.lineno = stmt.lineno + (x.lineno - first + 1) / 10000.0
+                            x.orig_lineno = getattr(x, 'orig_lineno', x.lineno if st not in pre and st not in tail else stmt.lineno)
+                            base = x.lineno if (st not in pre and st not in tail) else (first - 1 if st in pre else first + span - 1)
+                            x.lineno = stmt.lineno + (base - first + 2) / 10000.0 - (0.5 if form == 'if' else 0)
                         if getattr(x, 'end_lineno', None) is not None:
-                            x.end_lineno = stmt.lineno + (x.end_lineno - first + 1) / 10000.0
+                            x.end_lineno = x.lineno
                 marker = ast.Expr(value=ast.Call(func=ast.Name(id='__pwsa_inlined__', ctx=ast.Load()), args=[ast.Constant(value=name)], keywords=[]))
                 ast.copy_location(marker, stmt)
                 ast.fix_missing_locations(marker)
+                if form == 'if':
+                    marker.lineno = stmt.lineno - 0.6
+                placed = False
                 for field in ('body', 'orelse', 'finalbody'):
                     lst = getattr(holder, field, None)
                     if isinstance(lst, list) and any(x is stmt for x in lst):
-                        i = [k for k, x in enumerate(lst) if x is stmt][0]
-                        # entering the helper is a landing point of its own only if its first statement is not one already (a landing on the
-                        # call of H and a landing before the first call inside H cut the same thing)
-                        first_is_landing = any(isinstance(x, ast.Call) for x in ast.walk(new[0])) and not isinstance(new[0], (ast.If, ast.While, ast.For, ast.Try, ast.With))
-                        lst[i:i + 1] = ([] if first_is_landing else [marker]) + new
+                        i = [k2 for k2, x in enumerate(lst) if x is stmt][0]
+                        first_is_landing = bool(new) and not pre and any(isinstance(x, ast.Call) for x in ast.walk(new[0])) and \
+                            not isinstance(new[0], (ast.If, ast.While, ast.For, ast.Try, ast.With))
+                        head = [] if first_is_landing else [marker]
+                        if form == 'if':
+                            # the call inside the test becomes the temporary
+                            call.__class__ = ast.Name
+                            keep = {k2: getattr(call, k2) for k2 in ('lineno', 'col_offset', 'end_lineno', 'end_col_offset') if hasattr(call, k2)}
+                            call.__dict__.clear()
+                            call.__dict__.update(dict(id=f'ret__{name}', ctx=ast.Load(), **keep))
+                            lst[i:i] = head + seq
+                        else:
+                            lst[i:i + 1] = head + seq
+                        placed = True
                         break
-            c.body = [st for st in c.body if st is not f]
-            if not c.body:
-                c.body = [ast.Pass()]
-            absorbed.append(f'{c.name}.{name}')
+                if not placed:
+                    ok_all = False
+                fn_holder = holder
+                inlined_in.add(id(fn_holder))
+            if not ok_all:
+                continue
+            if cd['cls'] is not None:
+                cd['cls'].body = [st for st in cd['cls'].body if st is not cd['f']] or [ast.Pass()]
+                absorbed.append(f"{cd['cls'].name}.{name}")
+            else:
+                cd['mod'].tree.body = [st for st in cd['mod'].tree.body if st is not cd['f']]
+                absorbed.append(f"{cd['mod'].name.split('.')[-1]}.{name}")
             done_any = True
+            break      # one helper per round: the census (parents, sites) is stale after a rewrite
         if not done_any:
             break
     return absorbed
@@ -356,6 +726,95 @@ def fold_lock_blocks(modules):
                     w = ast.With(items=[ast.withitem(context_expr=a.value.func.value, optional_vars=None)], body=t.body, type_comment=None, **pos)
                     lst[i - 1:i + 1] = [w]
                     count += 1
+    return count
+
+
+def split_tuple_assignments(modules):
+    """`a, b = (x, y)` with a literal tuple of the same length on the right is analysed as `a = x` followed by `b = y` when no target is read by the
+    right-hand side (so it is not a swap); an element assigned to itself (`a, b = a, b` after a helper that hands its arguments back was inlined)
+    is dropped.  Returns the number of split statements."""
+    count = 0
+    for mod in modules.values():
+        for parent in ast.walk(mod.tree):
+            for field in ('body', 'orelse', 'finalbody'):
+                lst = getattr(parent, field, None)
+                if not isinstance(lst, list):
+                    continue
+                i = 0
+                while i < len(lst):
+                    st = lst[i]
+                    i += 1
+                    if isinstance(st, ast.Assign) and len(st.targets) == 1 and isinstance(st.targets[0], (ast.Tuple, ast.List)) and len(st.targets[0].elts) == 1 \
+                            and isinstance(st.targets[0].elts[0], ast.Name) and not isinstance(st.value, (ast.Tuple, ast.List)):
+                        # `(a,) = E` is analysed as `a = E[0]`
+                        pos = {k: getattr(st.value, k) for k in ('lineno', 'col_offset', 'end_lineno', 'end_col_offset') if hasattr(st.value, k)}
+                        st.targets = [st.targets[0].elts[0]]
+                        st.value = ast.Subscript(value=st.value, slice=ast.Constant(value=0, **pos), ctx=ast.Load(), **pos)
+                        count += 1
+                        continue
+                    if not (isinstance(st, ast.Assign) and len(st.targets) == 1 and isinstance(st.targets[0], ast.Tuple) and isinstance(st.value, ast.Tuple)
+                            and len(st.targets[0].elts) == len(st.value.elts) and all(isinstance(t, ast.Name) for t in st.targets[0].elts)):
+                        continue
+                    pairs = [(t, v) for t, v in zip(st.targets[0].elts, st.value.elts) if not (isinstance(v, ast.Name) and v.id == t.id)]
+                    tnames = {t.id for t, _ in pairs}
+                    if any(isinstance(x, ast.Name) and x.id in tnames for _, v in pairs for x in ast.walk(v)):
+                        continue
+                    new = []
+                    for k, (t, v) in enumerate(pairs):
+                        a0 = ast.Assign(targets=[t], value=v, type_comment=None)
+                        ast.copy_location(a0, st)
+                        a0.lineno = st.lineno + k / 100000.0
+                        if hasattr(st, 'orig_lineno'):
+                            a0.orig_lineno = st.orig_lineno
+                        new.append(a0)
+                    if not new:
+                        p0 = ast.Pass()
+                        ast.copy_location(p0, st)
+                        new = [p0]
+                    lst[i - 1:i] = new
+                    i += len(new) - 1
+                    count += 1
+    return count
+
+
+def normalise_struct_objects(modules):
+    """A module-level constant `H = struct.Struct('<fmt>')` (bound once, literal format) is analysed through the module functions it stands for:
+    `H.pack(v)` as `struct.pack('<fmt>', v)`, `H.unpack(b)` / `H.unpack_from(b)` likewise, `H.size` as the number struct.calcsize gives.
+    Returns the number of rewritten uses."""
+    import struct as _struct
+    count = 0
+    for mod in modules.values():
+        consts = {}
+        stores = {}
+        for n in ast.walk(mod.tree):
+            if isinstance(n, ast.Name) and isinstance(n.ctx, (ast.Store, ast.Del)):
+                stores[n.id] = stores.get(n.id, 0) + 1
+        for st in mod.tree.body:
+            if isinstance(st, ast.Assign) and len(st.targets) == 1 and isinstance(st.targets[0], ast.Name) and isinstance(st.value, ast.Call) \
+                    and dotted(st.value.func) in ('struct.Struct', 'Struct') and len(st.value.args) == 1 and isinstance(st.value.args[0], ast.Constant) \
+                    and isinstance(st.value.args[0].value, str) and stores.get(st.targets[0].id) == 1:
+                consts[st.targets[0].id] = st.value.args[0].value
+        if not consts:
+            continue
+        for n in ast.walk(mod.tree):
+            if isinstance(n, ast.Call) and isinstance(n.func, ast.Attribute) and isinstance(n.func.value, ast.Name) and n.func.value.id in consts \
+                    and n.func.attr in ('pack', 'unpack', 'unpack_from', 'pack_into', 'iter_unpack'):
+                fmt = consts[n.func.value.id]
+                pos = {k: getattr(n.func, k) for k in ('lineno', 'col_offset', 'end_lineno', 'end_col_offset') if hasattr(n.func, k)}
+                n.func.value = ast.Name(id='struct', ctx=ast.Load(), **pos)
+                n.args = [ast.Constant(value=fmt, **pos)] + list(n.args)
+                count += 1
+        for n in ast.walk(mod.tree):
+            if isinstance(n, ast.Attribute) and n.attr == 'size' and isinstance(n.value, ast.Name) and n.value.id in consts and isinstance(n.ctx, ast.Load):
+                try:
+                    size = _struct.calcsize(consts[n.value.id])
+                except _struct.error:
+                    continue
+                pos = {k: getattr(n, k) for k in ('lineno', 'col_offset', 'end_lineno', 'end_col_offset') if hasattr(n, k)}
+                n.__class__ = ast.Constant
+                n.__dict__.clear()
+                n.__dict__.update(dict(value=size, kind=None, **pos))
+                count += 1
     return count
 
 
@@ -897,6 +1356,7 @@ class Program:
                 raise AnalysisError(f'mandatory module {self.package}.{m} is missing')
         self.annotations_stripped = strip_annotations(self.modules)
         self.suppress_desugared = desugar_suppress(self.modules)
+        self.struct_objects_normalised = normalise_struct_objects(self.modules)
         self.closing_desugared = desugar_closing(self.modules)
         self.lock_blocks_folded = fold_lock_blocks(self.modules)
         self.updates_normalised = normalise_updates(self.modules)
@@ -908,7 +1368,11 @@ class Program:
         self.walrus_hoisted = hoist_walrus(self.modules)
         self.conditionals_expanded = expand_conditional_statements(self.modules)
         self.else_hoisted = hoist_else_after_leave(self.modules)
-        self.absorbed = absorb_private_helpers(self.modules)
+        split_tuple_assignments(self.modules)
+        self.absorbed = absorb_private_helpers(self.modules, rounds=12)
+        self.tuple_assignments_split = split_tuple_assignments(self.modules)
+        self.inlined_temporaries_propagated = propagate_inlined_temporaries(self.modules) if self.absorbed else 0
+        self.local_records_scalarised = scalarise_local_records(self.modules)
         self.aliases_resolved = resolve_self_aliases(self.modules)
         for mod in self.modules.values():
             self._index_module(mod)
